@@ -650,6 +650,19 @@ def side_never_completes(cfg, tid, label):
     return cfg.exit not in r
 
 
+def can_end_without_value(cfg, funcnode, good=None):
+    """a normal exit of the function is reachable without passing a `return <value>` statement (falling off the end, a bare
+    `return`, `return None`); finally blocks between the return and the exit are fine.  good(return stmt) may narrow what
+    counts as a proper return"""
+    ok_ids = []
+    for n in body_walk(funcnode):
+        if isinstance(n, ast.Return) and n.value is not None and not (isinstance(n.value, ast.Constant) and n.value.value is None):
+            if good is None or good(n):
+                ok_ids += cfg.ids(n)
+    r = cfg.reach([cfg.entry], avoid=set(ok_ids), exc=False)
+    return cfg.exit in r
+
+
 # every public helper of this module is available through `from sa.lib import *`
 __all__ = sorted(set(__all__) | {k for k, v in list(globals().items())
                                  if not k.startswith('_') and getattr(v, '__module__', None) == __name__})
